@@ -425,6 +425,7 @@ def canon(rec):
 
 
 FAIL_TAGS = ("fail:closed", "fail:timeout", "fail:protocol", "fail:intr", "fail:comm")
+COMM_FAIL_TAGS = ("fail:closed", "fail:timeout", "fail:protocol", "fail:comm")     # fail:intr is the injected KeyboardInterrupt
 
 
 def check_history(ctx, case, recs, net, retries):
@@ -500,17 +501,12 @@ def check_history(ctx, case, recs, net, retries):
         if rec["delta"] > budget and tag in ("returned", "raised"):
             fail("exec-bound", "call %d (%s%d): method ran %d times (allowed: %d)" % (idx, kind, tok, rec["delta"], budget), idx)
         # (5) recovery: after a failed call, the next call over a healthy transport is served correctly
-        if prev is not None and prev["tag"] in FAIL_TAGS and kind != "f" and rec["events"] and all(e[0] == "ok" for e in rec["events"]):
+        if prev is not None and prev["tag"] in COMM_FAIL_TAGS and kind != "f" and rec["events"] and all(e[0] == "ok" for e in rec["events"]):
             good = (tag in ("returned", "raised")) and (oneway or (inv and inv[-1]["call"] == idx))
             if not good:
                 fail("no-recovery", "call %d failed (%s); the next call %d (%s%d) over a healthy transport ended with %s"
                      % (prev["idx"], prev["tag"], idx, kind, tok, tag), idx)
-        if prev is not None and prev["tag"] in FAIL_TAGS and prev["state"] not in ("I", "F"):
-            fail("not-released", "call %d failed (%s) but the proxy kept its connection" % (prev["idx"], prev["tag"]), prev["idx"])
         prev = rec
-    last = recs[-1] if recs else None
-    if last is not None and last["tag"] in FAIL_TAGS and last["state"] not in ("I", "F"):
-        fail("not-released", "call %d failed (%s) but the proxy kept its connection" % (last["idx"], last["tag"]), last["idx"])
 
 
 def run_cases(ctx, rig, cases, do_model, label):
